@@ -25,7 +25,7 @@ def run_case(fmt, case, per_req_timeout):
     fails = []
     stats = {"requests": 0, "nontrivial": 0}
     try:
-        signal.setitimer(signal.ITIMER_REAL, per_req_timeout)
+        signal.setitimer(signal.ITIMER_REAL, max(30.0, per_req_timeout))
         fh = mod.build(spec)
         stream = mod.open_real(fh, spec)
         signal.setitimer(signal.ITIMER_REAL, 0)
